@@ -8,6 +8,11 @@ HOOK_COMMITS = ["204cfe3", "2edc694", "e1d8638"]
 
 # id -> (category, technique, level text, level note, design ref)
 CHECKS = {
+ "C04": ("exploration",
+         "runtime monitoring of held readers in child processes: complete fingerprints (count, documents with stored fields, document values, dictionaries, query battery) re-taken twice back to back after batches, around scripted background steps (segment removal, merge introduction, persist swap), at quiescence and after Writer.Close; liveness assertions in a wrapping segment plug-in (use after handle close); child death = fault",
+         "Readers of several ages (current-root, superseded, OpenReader beside the live writer, outliving Close) are kept open while a merge-happy writer with seeded jitter continues; each reader's fingerprint must never change and its content must equal the abstract index at acquisition; gates place one background step of each kind between two reads and the log of realised (reader kind, step kind) pairs is reported. Held on the runs observed.",
+         "Trusts: fingerprint determinism (scores included), role detection, the plug-in wrapper's handle table.",
+         "DESIGN.md §4 C04"),
  "C05": ("exploration",
          "linearizability checking (porcupine) of client-boundary histories recorded from real concurrent Writer.Batch / Writer.Reader calls, against the abstract index as sequential model; schedules from seeded jitter at all seams and from scripted gates on the obsoletes computation (stale-root window)",
          "Histories of 2..8 writers and 1..3 readers over <= 4 ids (safe and unsafe mode, memory and file-system directories, merges on) are recorded with call/return stamps from one atomic clock and a final read, and each is decided by porcupine: batches must take effect atomically in a real-time-respecting total order and every read must equal the state after a prefix. Gate scenarios force the window in which a batch computed its obsoletes against a root that a conflicting batch (or a persist / merge) has meanwhile replaced. Many short histories; checker time-outs are counted as inconclusive.",
